@@ -120,7 +120,19 @@ type AOpaque struct {
 	typ types.Type
 }
 
-type AFunc struct{ fn *ssa.Function }
+type AFunc struct {
+	fn   *ssa.Function
+	recv AV // bound receiver of a method value (x.M), nil otherwise
+}
+
+// AFuncSet is "one of these known functions": the value of a function-typed variable assigned on
+// several paths. sel identifies the alternative (bound per incoming edge like any merged value),
+// so a call through it is evaluated per alternative under sel == i.
+type AFuncSet struct {
+	key  string
+	alts []AFunc
+	sel  *Sym
+}
 type AGlobal struct{ g *ssa.Global }
 
 // AIface is a value boxed into an interface (MakeInterface).
@@ -409,7 +421,12 @@ func describeAV(v AV) string {
 	case AOpaque:
 		return "opaque(" + x.key + ")"
 	case AFunc:
+		if x.recv != nil {
+			return x.fn.String() + "[" + describeAV(x.recv) + "]"
+		}
 		return x.fn.String()
+	case AFuncSet:
+		return "funcs(" + x.key + ")"
 	case ATuple:
 		ss := make([]string, len(x))
 		for i, e := range x {
